@@ -198,7 +198,16 @@ func bfs(t *testing.T, spec *bfsSpec, res map[string]*vh.Result, main string, de
 	}
 	r := res[main]
 	record := func(hist []string, probs []problem) {
+		// a crash of the client belongs to C05 and to the property whose world
+		// provoked it (every world property has a "never crashes" clause)
+		var all []problem
 		for _, p := range probs {
+			all = append(all, p)
+			if p.Prop == "C05" && strings.HasPrefix(p.Key, "C05/panic") && main != "C05" {
+				all = append(all, problem{main, main + strings.TrimPrefix(p.Key, "C05"), p.Msg})
+			}
+		}
+		for _, p := range all {
 			rr := res[p.Prop]
 			if rr == nil || rr.HasViolation(p.Key) {
 				continue
@@ -214,7 +223,7 @@ func bfs(t *testing.T, spec *bfsSpec, res map[string]*vh.Result, main string, de
 			for i := 0; i < 5; i++ {
 				o := runWorld(t, spec, hist, false)
 				for _, q := range o.probs {
-					if q.Key == p.Key {
+					if q.Key == p.Key || (strings.HasPrefix(q.Key, "C05/panic") && main+strings.TrimPrefix(q.Key, "C05") == p.Key) {
 						hits++
 						break
 					}
